@@ -11,7 +11,7 @@ package main
 //   Output: the observer callbacks and the responses written, in order, then the state of the
 //   command session when the loop has returned.  A response is printed as
 //   r:<status>:<header names>:<CSeq>:<Transport, server ports masked>:<body>.
-//   The last token, leak:<n>, counts the pairs of sockets this case opened (the UDP connections of
+//   The last token, leak:<n>, counts the sockets this case opened (the UDP connections of
 //   SETUP) that are still open after the sessions have been disposed.
 
 import (
@@ -163,6 +163,6 @@ func init() {
 				leaked++
 			}
 		}
-		return fmt.Sprintf("ok %s %s leak:%d", c13Join(ev), state, leaked/2)
+		return fmt.Sprintf("ok %s %s leak:%d", c13Join(ev), state, leaked)
 	})
 }
